@@ -305,6 +305,15 @@ def standard_check(pid, reg, tier, seed, args, t0):
         elif differ:
             c, r = differ[0]
             oracle_fail.append((c, r, None, ["miri: the interpreted run prints something else than the native run"]))
+    if ref_bin and corr_fail:
+        # this property is about *two builds agreeing*: a disagreement with the model that the reference
+        # build shows in exactly the same way says nothing about it (the reference oracle above has
+        # already flagged every script on which the builds differ)
+        same = [x for x in corr_fail if ref_out.get("\n".join(x[0])) == x[1]]
+        corr_same_as_reference = len(same)
+        corr_fail = [x for x in corr_fail if ref_out.get("\n".join(x[0])) != x[1]]
+    else:
+        corr_same_as_reference = 0
     for xo in reg.get("cross_oracles", []):
         for ci, problem in xo(cases, impl):
             if not any(c is cases[ci] for c, _, _, _ in oracle_fail):
@@ -381,7 +390,7 @@ def standard_check(pid, reg, tier, seed, args, t0):
         if pr:
             path = E.write_replay(pid, "build-or-source", dict(problems=pr, note=note))
             violations.append((path, ""))
-    if lean["broken"] and not violations:
+    if lean["broken"] and not violations and not reg.get("lean_not_decisive"):
         path = E.write_replay(pid, "proof-obligation", dict(broken=lean["broken"], log=lean.get("log", ""),
                                                             note="no failing input found by the correspondence run and the oracle on this tier"))
         violations.append((path, " no-failing-input-found"))
@@ -405,6 +414,7 @@ def standard_check(pid, reg, tier, seed, args, t0):
             traces_validated_against_impl=len(cases) if driver_ok else 0,
             correspondence=dict(cases=len(cases), lines=sum(len(c) for c in cases), oracle_failures=len(oracle_fail),
                                 projection_mismatches=len(corr_fail), physical_only_drift_cases=drifts,
+                                mismatches_shared_with_reference_build=corr_same_as_reference,
                                 cases_without_harness_instantiation=unsupported,
                                 operations=opcount),
             proof_obligations_broken=lean["broken"], notes=lean["notes"] + extra_notes,
